@@ -228,7 +228,7 @@ func c01(c *Ctx) {
 		"bit for bit on the well-formed domain (so they are mutually inverse there); one-byte element header forms agree; " +
 		"SIBLING: MarshalSize and MarshalTo add the same per-element and rounding terms; BOUNDS contract: on every success " +
 		"return of Header.Unmarshal with an extension block the header length is the block end. Equality of payload and " +
-		"extension bytes after the trip is not decided."
+		"extension bytes after the trip is not decided. CTR.extlen: on every success path of Header.MarshalTo the 16-bit extension length field holds (header length - block start)/4."
 	n := fixedHeaderRules(c)
 	n += elementHeaderRules(c)
 	n += sizeSibling(c)
